@@ -3,6 +3,7 @@ package core
 import (
 	"fmt"
 	"hash/fnv"
+	"io"
 	"runtime"
 	"runtime/debug"
 	"sort"
@@ -375,8 +376,15 @@ type Log struct {
 
 const maxLogLines = 600
 
+// TraceOut, if set, receives every log line as it is produced (replay mode:
+// the trace survives a run that kills the process).
+var TraceOut io.Writer
+
 func (l *Log) Addf(format string, args ...any) {
 	line := fmt.Sprintf("t=%v ", time.Since(l.start)) + fmt.Sprintf(format, args...)
+	if TraceOut != nil {
+		fmt.Fprintln(TraceOut, line)
+	}
 	l.mu.Lock()
 	hh := fnv.New64a()
 	fmt.Fprintf(hh, "%x|%s", l.h, line)
